@@ -1,9 +1,9 @@
 #!/bin/sh
-# usage: tools/runall.sh <tier> <seed>...    runs every check once per seed, prints one line per run
+# usage: [CHECKS="C13 C14"] tools/runall.sh <tier> <seed>...    runs every (or the named) check once per seed, prints one line per run
 cd "$(dirname "$0")/.." || exit 2
 tier=$1; shift
 for seed in "$@"; do
-  for id in C01 C02 C03 C04 C05 C06 C07 C08 C09 C10 C11 C12 C13 C14 C15 C16 C17 C18 C19 C20; do
+  for id in ${CHECKS:-C01 C02 C03 C04 C05 C06 C07 C08 C09 C10 C11 C12 C13 C14 C15 C16 C17 C18 C19 C20}; do
     s=$(date +%s)
     out=$(VERIF_SEED=$seed ./check $id $tier 2>&1); rc=$?
     e=$(date +%s)
